@@ -742,7 +742,9 @@ class C15(FaultMonitorMixin, BaseMonitor):
 
     @staticmethod
     def spec_generator(k, cfg, index):
-        cfg["deleting_jobs"] = False
+        # (jobs that delete data only in a quarter of the runs: there the storage's base need is an input whose
+        # lowering makes the cumulative storage need negative)
+        cfg["deleting_jobs"] = index % 4 == 1
         if index % 3 == 0:
             cfg["builders"] = True
         return gen.gen_spec(k, cfg)
@@ -758,6 +760,10 @@ class C15(FaultMonitorMixin, BaseMonitor):
                     "value": copy.deepcopy(spec["objs"][op["obj"]]["attrs"][op["attr"]]),
                     "src": spec["objs"][op["obj"]].get("src", {}).get(op["attr"]),
                     "reuse": self.k.chance(0.5, "reuse-old-object", op.get("i"))}
+        if op["op"] == "compound" and op.get("tag", "").startswith("create_then_list_"):
+            # the failing part is the in-place list edit: the previous list is assigned back
+            return {"op": "set", "revert": True, "obj": op["obj"], "attr": op["attr"],
+                    "value": copy.deepcopy(spec["objs"][op["obj"]]["attrs"][op["attr"]]), "src": None}
         return None
 
     def next_op(self, i):
@@ -1346,6 +1352,13 @@ class C18(FaultMonitorMixin, BaseMonitor):
             return "skip"
         inside = S.closure(sim.spec)
         if C.diff_snapshots(C.calc_snapshot(sim.world, inside), C.calc_snapshot(ref, inside), self.cls_of):
+            # the model already deviates from the rebuilt reference (C01's finding); one thing remains C18's own,
+            # literally: recomputing the whole system without changing any input must not change any value
+            calc0, in0 = self.snapshots()
+            status, ret = self.execute({"op": "recompute", "targets": ["sys!"]})
+            if status == "ok":
+                self.compare(i, dict(op, op="recompute"), calc0, in0,
+                             "recomputation of the whole system on a model left stale by an edit")
             self.res.count("inconclusive_engine_defect")
             self.stop = "inconclusive_engine_defect"
             return "skip"
@@ -1774,6 +1787,13 @@ class C07(BaseMonitor):
     def spec_generator(k, cfg, index):
         if index % 2 == 0:
             cfg["builders"] = True
+        if index % 3 == 0:
+            # jobs that delete data next to jobs that store some, few journeys (so that they cover the same hours):
+            # the storage then compares needs and frees hour by hour
+            cfg["deleting_jobs"] = True
+            cfg["n_uj"] = 1
+            cfg["n_up"] = min(cfg["n_up"], 2)
+            cfg["offset_starts"] = False
         return gen.gen_spec(k, cfg)
 
     def on_start(self):
